@@ -880,6 +880,9 @@ func (s *PrintCtx) pcAppendColon() {
 
 func (s *PrintCtx) pcAppendComma() {
 	if s.jsonMode {
+		if n := len(s.buf); n > 0 && s.buf[n-1] == '{' {
+			return // the first member of an object
+		}
 		s.pcAppendByte(',')
 	} else {
 		s.pcAppendByte(' ')
